@@ -119,7 +119,7 @@ def handleSpec (op : String) (strs : List String) (xs : List Q) : Option String 
     let (f, r) ← vec r; let (h, r) ← num r; let (rho, r) ← num r
     let fo ← (if fk == "op" then (ori r).map fun (o, _) => some o else some none)
     if okH (p.sub f) h && okRho (p.sub f) h rho then
-      some s!"{showV (beyond p off f h rho)} {showM (beyondParent Scenic.Gen.Frames.beyondInheritsFromOrientation fo)}"
+      some s!"{showV (beyond p off f h rho)} {showM (beyondParent fo)}"
     else some "bad-witness"
   | "offsetby", [] => do
     let (p, r) ← vec xs; let (o, r) ← ori r; let (off, _) ← vec r
@@ -138,19 +138,24 @@ def handleSpec (op : String) (strs : List String) (xs : List Q) : Option String 
     let (p, r) ← ori xs; let (t, _) ← ori r
     let l := facingLocal p t
     some s!"{showM l} {showM (p.mul l)}"
-  | "facingtoward", [away, directly] => do
+  | "facingtoward", [name, away] => do
+    -- name: the specifier function in veneer.py (row of the generated facingTable); `away` only tells the
+    -- harness-side direction used to check the square-root witnesses
     let (p, r) ← ori xs; let (pos, r) ← vec r; let (t, r) ← vec r; let (h, r) ← num r; let (rho, _) ← num r
     let dir := facingDirection (away == "away") p pos t
     if !(okH dir h && okRho dir h rho) then some "bad-witness" else
-    let yaw := azimuthOf dir h
-    let pitch := if directly == "direct" then altitudeOf dir h rho else Ang.zero
-    some s!"{showA yaw} {showA pitch} {showM (p.mul (euler yaw pitch Ang.zero))}"
+    match facingByName name p pos t Ang.zero h rho with
+    | none => some "no-such-specifier"
+    | some (yaw, pitch) =>
+      let pt := pitch.getD Ang.zero
+      some s!"{showA yaw} {showA pt} {showM (p.mul (euler yaw pt Ang.zero))}"
   | "appfacing", [] => do
     let (p, r) ← ori xs; let (pos, r) ← vec r; let (f, r) ← vec r; let (hd, r) ← ang r; let (h, _) ← num r
-    let flag := Scenic.Gen.Frames.apparentlyFacingUsesParent
-    let d := if flag then p.transpose.mulVec (pos.sub f) else pos.sub f
+    let d := p.transpose.mulVec (pos.sub f)
     if !(okH d h) then some "bad-witness" else
-    some (showA (apparentlyFacingYaw flag p pos f hd h))
+    match facingByName "ApparentlyFacing" p pos f hd h 1 with
+    | some (yaw, _) => some (showA yaw)
+    | none => some "no-such-specifier"
   | "side", [name] => do
     let (p, r) ← vec xs; let (o, r) ← ori r; let (d, _) ← dims r
     match sidePoint p o d name with
